@@ -49,7 +49,12 @@ def build(case):
 
 def make_decoder(case, code, em):
     klass = get_decoder_class(case['decoder'])
-    return klass(code, em, case['error_rate'], **(case.get('dparams') or {}))
+    # the decoder's prior rate is an argument of its own; callers may keep one
+    # decoder (or a deliberately tuned prior) while the physical rate varies
+    rate = case.get('decoder_rate')
+    if rate is None:
+        rate = case['error_rate']
+    return klass(code, em, rate, **(case.get('dparams') or {}))
 
 
 def own_syndrome(H, e):
